@@ -40,12 +40,12 @@ def _cache_bytes():
 
 
 def _rebuilt():
+    """Reference table = what an import with the intact shipped cache yields (the property: the same table whatever state
+    the cache is in).  Read straight from the shipped pickle, not through build_tz_offsets, so that a change to the builder
+    cannot move the reference together with the result.  (That the shipped pickle equals the source is C16's subject.)"""
     if "rebuilt" not in _state:
-        import regex as re
-        from dateparser import timezone_parser as tp
-        parts = []
-        offs = list(tp.build_tz_offsets(parts))
-        _state["rebuilt"] = (_sig(offs), ("|".join(parts)))
+        h, offs, s1, s2 = pickle.loads(_cache_bytes())
+        _state["rebuilt"] = (_sig(offs), s1.pattern)
     return _state["rebuilt"]
 
 
@@ -212,10 +212,11 @@ import sys, pickle, os
 try:
     import dateparser
     from dateparser import timezone_parser as tp
-    parts = []
-    want = [(n, i['regex'].pattern, int(i['regex'].flags), i['offset']) for n, i in tp.build_tz_offsets(parts)]
+    with open(os.environ['C19_REFERENCE'], 'rb') as f:
+        h0, offs0, s10, s20 = pickle.load(f)
+    want = [(n, i['regex'].pattern, int(i['regex'].flags), i['offset']) for n, i in offs0]
     got = [(n, i['regex'].pattern, int(i['regex'].flags), i['offset']) for n, i in tp._tz_offsets]
-    ok = got == want and tp._search_regex.pattern == '|'.join(parts)
+    ok = got == want and tp._search_regex.pattern == s10.pattern
     r = dateparser.parse('2015-02-03 14:05 EST')
     ok = ok and r is not None and r.utcoffset().total_seconds() == -18000
     with open(tp.CACHE_PATH, 'rb') as f:
@@ -249,6 +250,10 @@ def extra_phase(ctx, known, total):
         env = dict(os.environ)
         env["PYTHONPATH"] = tmp
         env.pop("BUILD_TZ_CACHE", None)
+        ref = os.path.join(tmp, "reference_cache.pkl")
+        with open(ref, "wb") as f:
+            f.write(_cache_bytes())
+        env["C19_REFERENCE"] = ref
         procs = []
         # each fault needs its own package copy only for the cache file: run sequentially per copy, 8 copies in parallel
         copies = [tmp]
